@@ -24,3 +24,16 @@ Example C27_nonvacuous :
   NoDup (keys m) /\ acyclic_known m /\ sort_modules m = [0; 1; 2; 3].
 Proof. exact acyclic_nonvacuous. Qed.
 Print Assumptions C27_nonvacuous.
+
+(* "no cycle" stated on paths through the known dependencies (transitive closure), proved
+   equivalent to the rank formulation used above (coq/C27/Acyclic.v) *)
+From PV Require Import C27.Acyclic.
+
+Theorem C27_no_cycle_iff_rank : forall m, NoDup (keys m) -> (no_cycle m <-> acyclic_known m).
+Proof. exact no_cycle_iff_acyclic_known. Qed.
+Print Assumptions C27_no_cycle_iff_rank.
+
+Theorem C27_sort_respects_no_cycle : forall m, NoDup (keys m) -> no_cycle m ->
+  forall a ds b, In (a, ds) m -> In b ds -> In b (keys m) -> before b a (sort_modules m).
+Proof. exact sort_respects_no_cycle. Qed.
+Print Assumptions C27_sort_respects_no_cycle.
